@@ -63,6 +63,20 @@ def collect(u, reach):
     return obs
 
 
+def _captured_count(lem, b, p, e):
+    """an enumerate index captured by a nested closure (lemma L-COUNT through the capture)"""
+    class _O:
+        pass
+    o = _O()
+    o.fn = p
+    x = e
+    while x[0] == "cast":
+        x = x[4]
+    if not ((x[0] == "load" and isinstance(x[1], str) and x[1].startswith("arg1.") and x[1].endswith(".*")) or (x[0] == "proj" and x[1][:2] == ("arg", 1))):
+        return False
+    return b.get("kind") == "Closure" and lem.is_count(b, x, o)
+
+
 def record_count(cx, e):
     """e is the length of a collection of records (not bytes) or an enumerate index over one"""
     x = e
@@ -245,7 +259,7 @@ def check(prog, run):
                 ok2, h2 = cx.prove_le0(A.Lin(rt[0]) - li, bb, entry=True)
                 if ok1 and ok2:
                     how = "entailed by dominating guards (%s/%s)" % (h1, h2)
-            if how is None and rt[1] >= 2 ** 32 - 1 and rt[0] <= 0 and (record_count(cx, e) or lem.closure_param_enum_index(p, e)):
+            if how is None and rt[1] >= 2 ** 32 - 1 and rt[0] <= 0 and (record_count(cx, e) or lem.closure_param_enum_index(p, e) or _captured_count(lem, b, p, e)):
                 how = "record count / enumerate index: below 2^32 - 1 under assumption A1"
             if how is None and rt[1] >= 2 ** 32 - 1 and rt[0] <= 0 and sample_payload_len(u, lem, cx, b, e):
                 how = "L-SAMPLESIZE: length of a queued sample's payload; every push onto a sample queue is dominated by a `len > u32::MAX -> Err` guard"
